@@ -692,7 +692,8 @@ fn convert_rpx_in_block(
                     }
                     Token::Function(func) => {
                         let func: &str = func;
-                        let config = if func == "calc" {
+                        // functions nested in calc() (min, max, var...) are still inside it
+                        let config = if func == "calc" || in_calc {
                             Some(ConvertOptions { in_calc: true })
                         } else {
                             None
